@@ -127,13 +127,19 @@ def Chain.init (m : Nat) (pre post : List α) : Chain α :=
 
 /-! ### the seeded executor the driver runs -/
 
-/-- tries the processes `i, i+1, …` (cyclically, `cnt` of them) and takes the first that can step -/
-def chainTry (c : Cfg) (s : Chain α) (procs n k : Nat) : Nat → Nat → Option (Chain α)
-  | 0, _ => none
-  | cnt + 1, i =>
-    match s.step c (i % procs) n k with
+/-- the first of the processes `j - 1, …, 0` that can step -/
+def chainScan (c : Cfg) (s : Chain α) (n k : Nat) : Nat → Option (Chain α)
+  | 0 => none
+  | j + 1 =>
+    match s.step c j n k with
     | some s' => some s'
-    | none => chainTry c s procs n k cnt (i + 1)
+    | none => chainScan c s n k j
+
+/-- the scheduler's choice: process `i` if it can step, otherwise the first that can (`none`: nobody can) -/
+def chainPick (c : Cfg) (s : Chain α) (n k i : Nat) : Option (Chain α) :=
+  match s.step c i n k with
+  | some s' => some s'
+  | none => chainScan c s n k s.procs
 
 /-- runs the chain under the schedule derived from `x` (same generator as `runSchedStop`); read buffers of
     `n` bytes, write requests of at most `k` bytes; stops when no process can step -/
@@ -141,7 +147,7 @@ def chainRun (c : Cfg) (n k : Nat) : Nat → Nat → Chain α → Chain α
   | 0, _, s => s
   | fuel + 1, x, s =>
     let x' := (x * 1103515245 + 12345) % 2147483648
-    match chainTry c s s.procs n k s.procs ((x' / 65536) % s.procs) with
+    match chainPick c s n k ((x' / 65536) % s.procs) with
     | some s' => chainRun c n k fuel x' s'
     | none => s
 
